@@ -81,6 +81,13 @@ def gen_files(rng, name, tier):
 
 
 def generate(rng, tier) -> dict:
+    if rng.random() < (0.0015 if tier == "quick" else 0.005):
+        # a decimation whose every output value averages ~17 million input values near the top of the 8-bit range: the
+        # sum of one bin passes 2^32 (and 2^24 long before): where an accumulator narrower than the definition's gives out
+        tf = rng.randint(4250000, 4400000)
+        n = 2 * tf + rng.randint(0, 1000)
+        return {"files": {"nbits": 8, "nchans": 4, "nsamps": [n], "pad": [0], "vseed": rng.randrange(1 << 16), "mode": "high", "big": True},
+                "name": "downsample", "params": {"tfactor": tf, "ffactor": 4}, "start": 0, "nsamps": None, "pre": [], "ops": [{"gulp": None}], "faults": [], "huge": True}
     name = rng.choice(T.NAMES)
     for _ in range(50):
         spec = gen_files(rng, name, tier)
